@@ -77,8 +77,9 @@ def replay_serializer(rep):
 
 def run(rep):
     common.load_contracts()
-    from contracts.filters import STRIPWS_SHAPE_CASES
-    return _run(rep, STRIPWS_SHAPE_CASES)
+    from contracts.filters import STRIPWS_SHAPE_CASES, MORE_LAYOUT_CASES
+    descent = [c for c in MORE_LAYOUT_CASES if c[0].endswith('ReindentFilter._process_identifierlist')]
+    return _run(rep, list(STRIPWS_SHAPE_CASES) + descent)
 
 
 def _run(rep, shape_cases):
